@@ -12,6 +12,7 @@ type StartFn = Box<dyn FnOnce() + Send>;
 static WORLD_START: Lazy<Mutex<Option<StartFn>>> = Lazy::new(|| Mutex::new(None));
 static PGCAT_EXIT: Lazy<Mutex<Option<(u64, u64)>>> = Lazy::new(|| Mutex::new(None));
 static BLOCK_ON_ENTERED: Lazy<Mutex<bool>> = Lazy::new(|| Mutex::new(false));
+static MAIN_PANICKED: Lazy<Mutex<bool>> = Lazy::new(|| Mutex::new(false));
 
 /// Build the runtime for this run. Must be called before PgCat's main.
 pub fn init(seed: u64) {
@@ -58,6 +59,20 @@ impl SimRuntime {
             out
         })
     }
+}
+
+/// PgCat's main future unwound with a panic: for the world this is the end of the process.
+pub fn main_panicked() {
+    if PGCAT_EXIT.lock().is_none() {
+        let seq = crate::log::world(|| "pgcat.main_panic".to_string());
+        *PGCAT_EXIT.lock() = Some((seq, crate::clock::now_us()));
+        *MAIN_PANICKED.lock() = true;
+        crate::net::freeze_pgcat();
+    }
+}
+
+pub fn main_panic() -> bool {
+    *MAIN_PANICKED.lock()
 }
 
 /// (event seq, virtual microseconds) at which PgCat's main future returned, if it did.
